@@ -31,7 +31,7 @@ const FEATURES: [&str; 36] = [
     "alu", "ld_st", "ldi_sti", "ldr_str", "loop", "nested_loop", "call_rets", "jsr_ret", "push_pop", "nested_sub",
     "jsrr", "recursion_call", "recursion_jsr", "self_modify", "puts", "out", "putn", "putsp", "trap_lit", "reg",
     "input", "cond_branch", "mid_halt", "jump_ffff", "jump_below", "jump_above", "unknown_trap",
-    "raw_stack_word_flag_off", "ret_from_main", "fall_off_end", "string_across_top_of_memory", "tail_beyond_user_space", "puts_terminator_zero_low_byte", "image_ends_at_top_of_memory", "", "",
+    "raw_stack_word_flag_off", "ret_from_main", "fall_off_end", "string_across_top_of_memory", "tail_beyond_user_space", "puts_terminator_zero_low_byte", "image_ends_at_top_of_memory", "self_modify_into_call", "inline_argument_sub",
 ];
 
 /// Feature names travel through JSON; give them back their static lifetime.
